@@ -38,8 +38,8 @@ CLAIMS = {
   note="The engine is seen through assumed abstract contracts on storage.Engine (specs/engine.vc; kvstore is verified separately against its own vocabulary, the refinement between the two is argued, not machine-checked); durations are assumed non-negative and below 2^62 ns; atomicIncrDecr hands the remaining life time of the value it read to the write (PX + clock reading == ttl, ms resolution); GetPut, the eviction worker and the replica read path are not yet under contract; wall-clock is the ghost clock (no skew).",
   ref="DESIGN.md §4 C09, §9"),
  "C15": dict(
-  text="Proof at the two translation points of the forwarding path: writePutCommand sends an Expire as DM.PEXPIRE and everything else as DM.PUT carrying the NX/XX condition, the first expiry form and the payload; putCommandHandler decodes every option of the parsed command into the PutConfig in every combination (condition together with an expiry form), with exact millisecond and (real-arithmetic) second conversions; deleteKeys processes every owner group before reporting success and reports the number of keys named; delCommandHandler serves DM.DEL through deleteKeys (ghost routing counter).",
-  note="The wire itself (go-redis serialisation, redcon parsing, strconv) is outside the verifier's reach: Put.Command/PExpire.Command are trusted for the command kind; ParsePutCommand's token loop, the cluster client's own writePutCommand and the pipeline are not yet under contract; deleteKey is trusted; floating point is treated as real arithmetic.",
+  text="Proof at the two translation points of the forwarding path: writePutCommand sends an Expire as DM.PEXPIRE and everything else as DM.PUT carrying the NX/XX condition, the first expiry form and the payload; putCommandHandler decodes every option of the parsed command into the PutConfig in every combination (condition together with an expiry form), with exact millisecond and (real-arithmetic) second conversions; deleteKeys processes every owner group before reporting success and reports the number of keys named; delCommandHandler serves DM.DEL through deleteKeys (ghost routing counter); the cluster client's writePutCommand translates the option set exactly like a forwarding member; the pipeline's addCommand hands back the (partition, index) address of exactly the command it queued, in the key's partition.",
+  note="The wire itself (go-redis serialisation, redcon parsing, strconv) is outside the verifier's reach: Put.Command/PExpire.Command are trusted for the command kind; ParsePutCommand's token loop, the pipeline's Exec/result mapping and the other operations of the cluster client are not yet under contract; deleteKey is trusted; floating point is treated as real arithmetic.",
   ref="DESIGN.md §4 C15, §9"),
  "C10": dict(
   text="Proof of the inductive step of the key-count bound and of the idleness direction: evictKeyWithLRU samples between 1 and LRUSamples present keys whenever the fragment is not empty (callback iteration modelled as a loop over the literal's body, so a Put never fails for lack of a victim), orders them by last access (sort.Slice ordered by the verified less contract) and evicts the least recently used of the samples, removing exactly one key and touching nothing else; setLRUEvictionStats leaves a fragment that was within its share max(1, MaxKeys/owned) strictly below it (and never calls eviction on an empty fragment); putOnCluster (single-copy path) therefore keeps the fragment within its share after every Put, and the key just written is present; isKeyIdleOnFragment reports idle only when a full idle window has elapsed since the last access and does report it once the window has elapsed.",
